@@ -178,7 +178,12 @@ def double_spin_rule(ctx, r2) -> None:
         how = "no assignment"
         if asg:
             offs, src, how = doubled_from(RS, asg[-1].value, RS.cfg.node(asg[-1]), 1)
-            ok = offs == {(0,), (1,)} and src is not None and src.split(".copy()")[0] == att
+            src0 = src.split(".copy()")[0] if src is not None else None
+            if src0 is not None:
+                import re as _re
+                m_w = _re.fullmatch(r"np\.(?:asarray|array|copy)\((.+?)(?:, dtype=\w+)?\)", src0)
+                src0 = m_w.group(1) if m_w else src0
+            ok = offs == {(0,), (1,)} and src0 == att
         r2.check(ok, f"{side} shifts doubled with the same interlace", rd, asg[-1] if asg else rd.node,
                  f"Rvectors.double_spin: `{att}` is doubled as: {how} — not each original shift at offsets 0 and 1")
     r2.check(bool([c for c in method_calls(rd.node, "clear_cached")]), "Rvectors.double_spin clears the cached R-vector quantities", rd, rd.node,
